@@ -521,12 +521,15 @@ def predicate(case, header_fields, tree):
                     else:
                         # several classes share this wrapper type (user subclasses): one wrapper per request, and request
                         # order within each class
-                        key = lambda d: json.dumps(d, sort_keys=True, default=str)
-                        chk("%s wrappers (one per request)" % trntag, sorted(map(key, want)), sorted(map(key, got)))
+                        # (compared as lists of dicts, ordered by the account id, so that the recorded finding -- a value holding an entity
+                        # reference comes back unescaped -- is recognised by classify() here as everywhere else: the thorough tier once reported
+                        # it under these keys as five "new" failing inputs)
+                        key = lambda d: json.dumps({k: v for k, v in d.items() if k in ("acctid", "accttype", "dtstart", "dtend")}, sort_keys=True, default=str)
+                        chk("%s wrappers (one per request)" % trntag, sorted(want, key=key), sorted(got, key=key))
                         for cn in classes:
                             sub = [describe_request(r, eff) for r in mine if (r.get("cls") or r["k"]) == cn]
-                            it = iter(got)
-                            chk("%s wrappers of class %s (request order)" % (trntag, cn), True, all(any(x == y for y in it) for x in sub))
+                            theirs = [g for g in got if any(g == x or same_modulo_entities(x, g) for x in sub)]
+                            chk("%s wrappers of class %s (request order)" % (trntag, cn), sub, theirs)
                 for w in node[2]:
                     trnuids.append(leafmap(w).get("TRNUID"))
     else:
@@ -627,18 +630,21 @@ def evaluate(case, outcome, fields, problems):
     return predicate(case, fields, outcome[2])
 
 
+def same_modulo_entities(w, g):
+    """value v came back as unescape(v) (somewhere inside)"""
+    if isinstance(w, str) and isinstance(g, str):
+        return w != g and py_unescape(w).strip() == g
+    if isinstance(w, dict) and isinstance(g, dict) and set(w) == set(g):
+        return all(w[k] == g[k] or same_modulo_entities(w[k], g[k]) for k in w)
+    if isinstance(w, list) and isinstance(g, list) and len(w) == len(g):
+        return all(a == b or same_modulo_entities(a, b) for a, b in zip(w, g))
+    return False
+
+
 def classify(case, diff):
     """name the defect behind ONE difference (known findings are listed by these keys)"""
     aspect, want, got = diff
-
-    def only_entities(w, g):          # value v came back as unescape(v)
-        if isinstance(w, str) and isinstance(g, str):
-            return w != g and py_unescape(w).strip() == g
-        if isinstance(w, dict) and isinstance(g, dict) and set(w) == set(g):
-            return all(w[k] == g[k] or only_entities(w[k], g[k]) for k in w)
-        if isinstance(w, list) and isinstance(g, list) and len(w) == len(g):
-            return all(a == b or only_entities(a, b) for a, b in zip(w, g))
-        return False
+    only_entities = same_modulo_entities
     if only_entities(want, got):
         return "entity-reference-in-value-unescaped"
     if case["op"]["kind"] == "tax" and aspect == "TAX1099RQ ACCTNUM" and got == [] and case["op"]["acctnum"]:
